@@ -26,6 +26,11 @@ FAMILIES = {
     "F": [("s1", "a", 1.0, "b", 1.0, "u1"), ("s1", "a", 1.0, "c", 1.0, "u2"), ("s1", "b", 1.0, "c", 1.0, "u3"),
           ("s1", "a", 2.0, "b", 1.0, "u4"), ("s1", "a", 2.0, "c", 1.0, "u5"), ("s1", "b", 2.0, "c", 1.0, "u5"),
           ("s1", "c", 2.0, "d", 1.0, "u5")],
+    # three samples with combination rows, single-agent rows only for the sample that sorts last (ids of a sub-screen that
+    # holds only the single-agent rows are numbered differently from those of the combination sub-screen)
+    "H": [("s1", "a", 1.0, "b", 1.0, "u1"), ("s2", "a", 1.0, "b", 1.0, "u1"), ("s3", "a", 1.0, "b", 1.0, "u1"),
+          ("s3", "a", 1.0, "", 0.0, "u1"), ("s1", "a", 1.0, "c", 1.0, "u1"), ("s3", "", 0.0, "b", 1.0, "u1"),
+          ("s2", "b", 1.0, "c", 1.0, "u1")],
     # like A but with a vehicle-only (all-control) experiment and a zero-dose treatment among the unobserved rows
     "E": [("s1", "a", 1.0, "b", 1.0, "obs"), ("s1", "", 0.0, "", 0.0, "u1"), ("s1", "b", 1.0, "c", 1.0, "u1"),
           ("s2", "a", 1.0, "b", 1.0, "u2"), ("s2", "c", 0.0, "a", 1.0, "u2"), ("s1", "a", 1.0, "c", 1.0, "u3")],
